@@ -9,6 +9,9 @@ stream   1-3 messages (built by the real SendingMessage, by the harness's own en
          fragmentation (recv returns 1..k bytes), short MSG_WAITALL reads, EINTR/EAGAIN between
          fragments, truncation (EOF or RST) at a chosen offset, in-flight mutation (byte flips,
          length-field rewrites, annotation/data boundary shifts, chunk-length rewrites, insert/delete).
+         About half of the stream cases (and of the concurrent threads) first push the built messages through the
+         real SocketConnection.send -> send_data into a scripted sending socket (blocking: sendall; with a timeout:
+         send() returning short counts / EAGAIN); what that socket accepted is what the receiver gets.
 direct   the same bytes handed to ReceivingMessage(header, payload) without a socket.
 sender   sender-side inputs only: bad annotation keys, str values, sizes around MAX_MESSAGE_SIZE.
 sweep    one small message and one fault kind applied at EVERY offset (truncate after o bytes / flip byte o).
@@ -192,6 +195,77 @@ def _chunk_len_pos(raw, idx):
     return None
 
 
+class ScriptSendSock:
+    """the sending side of the scripted wire: collects what send()/sendall() accepted.
+    In timeout mode send() may take only part of the data (short write) or raise a retryable errno."""
+    family = socket.AF_INET
+    type = socket.SOCK_STREAM
+    proto = 0
+
+    def __init__(self, snd, sched=None):
+        self.timeout = snd.get("timeout")
+        self.kmax = max(1, int(snd.get("kmax", 1)))
+        self.p_short = snd.get("p_short", 0.0)
+        self.p_err = snd.get("p_err", 0.0)
+        self.rng = random.Random(snd.get("seed", 0))
+        self.sched = sched
+        self.buf = bytearray()
+        self.nsend = self.nshort = self.nerr = 0
+        self.row = 0
+
+    def settimeout(self, t):
+        self.timeout = t
+
+    def gettimeout(self):
+        return self.timeout
+
+    def fileno(self):
+        return 98
+
+    def shutdown(self, how):
+        pass
+
+    def close(self):
+        pass
+
+    def sendall(self, data, flags=0):
+        if self.sched is not None:
+            self.sched.yield_point("send")
+        self.nsend += 1
+        self.buf += bytes(data)
+
+    def send(self, data, flags=0):
+        if self.sched is not None:
+            self.sched.yield_point("send")
+        self.nsend += 1
+        data = bytes(data)
+        n = len(data)
+        r = self.rng
+        if self.timeout is not None:
+            if self.p_err and self.row < 3 and self.nerr < 8 and r.random() < self.p_err:
+                self.row += 1
+                self.nerr += 1
+                raise OSError(errno.EAGAIN, "scripted EAGAIN")
+            self.row = 0
+            if n > 1 and self.p_short and r.random() < self.p_short:
+                lo = max(1, n // 64)
+                k = r.randint(lo, max(lo, min(n - 1, max(self.kmax, lo))))
+                self.nshort += 1
+                self.buf += data[:k]
+                return k
+        self.buf += data
+        return n
+
+
+def _send_through(raws, snd, sched=None):
+    """every message goes out with its own SocketConnection.send -> send_data call; returns the socket"""
+    sock = ScriptSendSock(snd, sched)
+    conn = SU.SocketConnection(sock, keep_open=True)
+    for r in raws:
+        conn.send(r)
+    return sock
+
+
 _CONC_CODES = None
 
 
@@ -296,6 +370,7 @@ class WireWorld(World):
     THREADED = False
     REAL = ["Pyro5.protocol.SendingMessage", "Pyro5.protocol.ReceivingMessage (header check, size check, add_payload)",
             "Pyro5.protocol.recv_stub", "Pyro5.socketutil.SocketConnection.recv", "Pyro5.socketutil.receive_data",
+            "Pyro5.socketutil.SocketConnection.send -> send_data (blocking and timeout-mode send loop, ~half of the stream cases)",
             "Pyro5.config (COMPRESSION, MAX_MESSAGE_SIZE)", "Pyro5.callcontext.current_context.correlation_id", "zlib"]
     STUB = ["socket (scripted: fragment sizes, short MSG_WAITALL, retryable errnos, EOF/RST, in-flight mutation)",
             "time.sleep in socketutil (virtual clock)", "reference codec = sim.net.parse_header/parse_annotations + wire.ref_build"]
@@ -305,7 +380,8 @@ class WireWorld(World):
               "max_boundary_exact", "direct_decode", "ref_built_accepted", "hostile_accepted", "hostile_rejected",
               "sender_bad_key", "sender_str_value", "open_end", "sentinel_read", "large_over_60000",
               "chunk_overrun_rejected", "reencoded", "sweep_cut", "sweep_flip",
-              "concurrent", "concurrent_preempted", "concurrent_overlap"]
+              "concurrent", "concurrent_preempted", "concurrent_overlap",
+              "sent_timeout_mode", "short_send"]
     RULE = ("plan = (COMPRESSION, MAX_MESSAGE_SIZE, correlation id, USE_MSG_WAITALL; 8-16 cases, each a stream of 1-3 "
             "messages with boundary-biased fields + sentinel + transport script (fragmentation seed, errno/short-read "
             "probabilities, truncation offset, mutation list) or a sender-only input); distinct = distinct plan digest / "
@@ -367,7 +443,8 @@ class WireWorld(World):
             if tr["mode"] == "bytewise":
                 tr["mode"] = "rand"
                 tr["kmax"] = max(tr["kmax"], 7)
-            threads.append({"corr": corr, "msgs": msgs, "tr": tr, "order": rng.choice(["batch", "alt"])})
+            threads.append({"corr": corr, "msgs": msgs, "tr": tr, "order": rng.choice(["batch", "alt"]),
+                            "snd": self._gen_snd(rng) if rng.random() < 0.6 else None})
         return {"k": "conc", "threads": threads}
 
     @staticmethod
@@ -572,9 +649,17 @@ class WireWorld(World):
             case["rmax"] = {"msg": rng.randrange(nm), "d": rng.choice([-1, -1, 0, 0, 1, -2, -40, rng.randint(-100, 100)])}
         if case["cut"] is None and rng.random() < 0.15:
             case["mode"] = "direct"
+        elif rng.random() < 0.5:
+            case["snd"] = self._gen_snd(rng)
         if case["mut"] or r2 < 0.12:
             case["tr"]["eof"] = True
         return case
+
+    @staticmethod
+    def _gen_snd(rng):
+        """the sending socket: blocking (sendall) or with a timeout (send loop; short writes and EAGAIN possible)"""
+        return {"timeout": rng.choice([None, 0.5, 5.0, 5.0]), "kmax": rng.choice([1, 3, 17, 100, 1000, 59999, 60001, 100000]),
+                "p_short": rng.choice([0.3, 0.8, 1.0]), "p_err": rng.choice([0, 0, 0.1, 0.3]), "seed": rng.getrandbits(24)}
 
     def _gen_sender_case(self, rng, cfg):
         m = self._gen_msg(rng, cfg, allow_big=False)
@@ -629,6 +714,10 @@ class WireWorld(World):
                         p = copy.deepcopy(plan)
                         p["cases"][i]["threads"][t]["corr"] = None
                         yield p
+                    if th.get("snd"):
+                        p = copy.deepcopy(plan)
+                        p["cases"][i]["threads"][t]["snd"] = None
+                        yield p
                 continue
             if c.get("k") == "sweep":
                 # a sweep is the union of single-offset stream cases: find the one that matters
@@ -674,6 +763,10 @@ class WireWorld(World):
             if c.get("sent"):
                 p = copy.deepcopy(plan)
                 p["cases"][i]["sent"] = ""
+                yield p
+            if c.get("snd"):
+                p = copy.deepcopy(plan)
+                p["cases"][i]["snd"] = None
                 yield p
             if c.get("mode") != "direct" and not c.get("cut"):
                 p = copy.deepcopy(plan)
@@ -779,6 +872,8 @@ class WireWorld(World):
                         raw = build(k)
                         if not isinstance(raw, bytes):
                             break
+                        if th.get("snd"):
+                            raw = bytes(_send_through([raw], dict(th["snd"], seed=th["snd"].get("seed", 0) + k), sched).buf)
                         sock = ScriptSock(raw, dict(th.get("tr") or {}, eof=True, seed=(th.get("tr") or {}).get("seed", 0) + k), sched=sched)
                         if not isinstance(read(SU.SocketConnection(sock, keep_open=True), k), dict):
                             break
@@ -789,7 +884,8 @@ class WireWorld(World):
                         if not isinstance(raw, bytes):
                             break
                         raws.append(raw)
-                    sock = ScriptSock(b"".join(raws), dict(th.get("tr") or {}, eof=True), sched=sched)
+                    wire = bytes(_send_through(raws, th["snd"], sched).buf) if th.get("snd") else b"".join(raws)
+                    sock = ScriptSock(wire, dict(th.get("tr") or {}, eof=True), sched=sched)
                     conn = SU.SocketConnection(sock, keep_open=True)
                     for k in range(len(raws)):
                         if not isinstance(read(conn, k), dict):
@@ -1231,6 +1327,26 @@ class WireWorld(World):
             o += len(r)
         sentinel = bytes.fromhex(case.get("sent") or "")
         S = b"".join(raws)
+        ssock = None
+        if case.get("snd") and case.get("mode") != "direct":
+            # the messages travel through the real SocketConnection.send -> send_data first (blocking socket: sendall;
+            # socket with a timeout: send loop with short writes / EAGAIN); what that put on the wire is what is delivered
+            try:
+                ssock = _send_through(raws, case["snd"])
+            except Exception as x:  # noqa
+                ctx.sched.ev("send-raised", i, type(x).__name__)
+                ctx.violate("valid-rejected", "send:" + type(x).__name__, "case %d: sending %d intact messages (%d bytes) over a socket with "
+                            "timeout=%r raised %r" % (i, len(raws), len(S), case["snd"].get("timeout"), x))
+                return
+            ctx.sched.sev("snd", i, ssock.nsend, ssock.nshort, ssock.nerr, len(ssock.buf))
+            S = bytes(ssock.buf)
+            if ssock.timeout is not None:
+                ctx.probe("sent_timeout_mode")
+            if ssock.nshort:
+                ctx.fault("short_send", ssock.nshort)
+                ctx.nontrivial = True
+            if ssock.nerr:
+                ctx.fault("send_errno", ssock.nerr)
         mutated_from = None
         if case.get("mut"):
             S, mutated_from = self._mutate(ctx, S, bounds, case["mut"])
@@ -1378,6 +1494,8 @@ class WireWorld(World):
         if sock.nfrag or sock.nshort or sock.nerr:
             ctx.nontrivial = True
         if clean_decoded and all_clean:
+            if ssock is not None and ssock.nshort:
+                ctx.probe("short_send")
             if sock.nfrag:
                 ctx.probe("fragmented")
             if sock.nshort:
